@@ -7,7 +7,7 @@ W=/tmp/seed/$id; O=$W/$odir
 n=$((i+off))
 export GOFLAGS=-mod=mod GOPROXY=off GOSUMDB=off GOTOOLCHAIN=local
 [ -f $O/patch$i.diff ] || { echo "no patch$i"; exit 2; }
-git -C $W checkout -q -- . ; git -C $W clean -qfd -e _out -e _out2
+git -C $W checkout -q -- . ; git -C $W clean -qfd -e "_out*"
 pkgline=$(grep -m1 '^package ' $O/demo${i}_test.go)
 case "$pkgline" in *field*) sub=field;; *) sub=.;; esac
 run_demo() { cp $O/demo${i}_test.go $W/$sub/zz_demo${i}_test.go; ( cd $W/$sub && timeout 900 go test -vet=off -count=1 -run "^TestDemo$i\$" . >/tmp/seed/demo.log 2>&1 ); rc=$?; rm -f $W/$sub/zz_demo${i}_test.go; return $rc; }
@@ -38,4 +38,4 @@ meta={"property":id,"seed":int(i),"origin":"independent sub-agent given only the
 meta.update(ann)
 json.dump(meta,open('/verif/seeded/%s-%s/meta.json'%(id,i),'w'),indent=1)
 PY
-git -C $W checkout -q -- . ; git -C $W clean -qfd -e _out -e _out2; rm -rf /tmp/seed/out_$id
+git -C $W checkout -q -- . ; git -C $W clean -qfd -e "_out*"; rm -rf /tmp/seed/out_$id
